@@ -3,6 +3,9 @@ from pyvc.contract import contract, field_type, REGISTRY
 from contracts import c03c_replays as RP
 import contracts.c03_idmanager  # noqa: F401  (expressions_names_indices, abstract dict_of_elementary_expression, field types)
 
+from pyvc.libext import c03c_ext as _ext
+_ext.install_discharge_retry()     # extra solver configurations for the (large) VC of prepare; only `unsat` changes a verdict
+
 Q = 'biogeme.expressions.idmanager.'
 
 # The modular call rule gives the object returned by a callee no position in the heap: nothing says that the tuple
